@@ -30,6 +30,9 @@ type Prog struct {
 	Whole   bool // dependencies loaded with syntax (thorough)
 	GoArch  string
 
+	// ControlsDropped: the seeded control files did not type-check against this tree and were left out
+	ControlsDropped bool
+
 	Norm    *normStats    // what the normalisation did (nil if switched off)
 	Renames *renameResult // declarations renamed back to their pinned names
 	// RenamedAnchors: field anchors that no longer resolve by name and were recognised by type
@@ -145,17 +148,38 @@ func Load(o LoadOpts) (*Prog, error) {
 		controlFiles = append(controlFiles, f)
 		controlPkg[f] = owner
 	}
+	var addedControls []*ast.File
 	addControls := func() {
 		for _, f := range controlFiles {
 			controlPkg[f].Syntax = append(controlPkg[f].Syntax, f)
+			addedControls = append(addedControls, f)
 		}
 		controlFiles = nil
+	}
+	// dropControls: the seeded controls no longer compile against this tree (they use declarations that
+	// were restructured): analyse without them; the floors still guard against blind rules
+	dropControls := func() {
+		for _, f := range addedControls {
+			pk := controlPkg[f]
+			var keep []*ast.File
+			for _, g := range pk.Syntax {
+				if g != f {
+					keep = append(keep, g)
+				}
+			}
+			pk.Syntax = keep
+		}
+		addedControls = nil
+		p.ControlsDropped = true
 	}
 	if o.NoNorm {
 		addControls()
 		if len(o.Overlay) > 0 {
 			if err := retypecheckPackages(p.All, p.Fset, p.isGenerated); err != nil {
-				return nil, err
+				dropControls()
+				if err := retypecheckPackages(p.All, p.Fset, p.isGenerated); err != nil {
+					return nil, err
+				}
 			}
 		}
 	}
@@ -173,6 +197,10 @@ func Load(o LoadOpts) (*Prog, error) {
 			if err != nil && len(p.Renames.Applied) > 0 {
 				// the guessed renames are inconsistent: analyse the tree as written instead
 				p.Renames.Revert()
+				err = retypecheckPackages(p.All, p.Fset, p.isGenerated)
+			}
+			if err != nil && hadControls {
+				dropControls()
 				err = retypecheckPackages(p.All, p.Fset, p.isGenerated)
 			}
 			if err != nil {
